@@ -211,3 +211,70 @@ func (server *SugarDB) VerifRunSampler(database int) error {
 // VerifServeConn serves one connection with the server's real connection handler
 // (used with net.Pipe so that the segmentation of the byte stream is deterministic).
 func (server *SugarDB) VerifServeConn(conn net.Conn) { server.handleConnection(conn) }
+
+// VerifCommand is one entry of the command table as the server sees it.
+type VerifCommand struct {
+	Name       string // "set", or "acl|setuser" for a subcommand
+	Categories []string
+	Sync       bool
+}
+
+// VerifCommandTable returns the registered commands and subcommands with their categories.
+func (server *SugarDB) VerifCommandTable() []VerifCommand {
+	server.commandsRWMut.RLock()
+	defer server.commandsRWMut.RUnlock()
+	var out []VerifCommand
+	for _, c := range server.commands {
+		if len(c.SubCommands) == 0 {
+			out = append(out, VerifCommand{Name: c.Command, Categories: append([]string{}, c.Categories...), Sync: c.Sync})
+			continue
+		}
+		for _, sc := range c.SubCommands {
+			cats := append(append([]string{}, c.Categories...), sc.Categories...)
+			out = append(out, VerifCommand{Name: c.Command + "|" + sc.Command, Categories: cats, Sync: sc.Sync})
+		}
+	}
+	return out
+}
+
+// VerifUser is a plain-data projection of one ACL user.
+type VerifUser struct {
+	Username           string
+	Enabled            bool
+	NoPassword         bool
+	NoKeys             bool
+	Passwords          [][2]string // {type, value}
+	IncludedCategories []string
+	ExcludedCategories []string
+	IncludedCommands   []string
+	ExcludedCommands   []string
+	IncludedReadKeys   []string
+	IncludedWriteKeys  []string
+	IncludedChannels   []string
+	ExcludedChannels   []string
+}
+
+// VerifACLUsers returns the ACL user table.
+func (server *SugarDB) VerifACLUsers() []VerifUser {
+	server.acl.RLockUsers()
+	defer server.acl.RUnlockUsers()
+	var out []VerifUser
+	for _, u := range server.acl.Users {
+		v := VerifUser{
+			Username: u.Username, Enabled: u.Enabled, NoPassword: u.NoPassword, NoKeys: u.NoKeys,
+			IncludedCategories: append([]string{}, u.IncludedCategories...),
+			ExcludedCategories: append([]string{}, u.ExcludedCategories...),
+			IncludedCommands:   append([]string{}, u.IncludedCommands...),
+			ExcludedCommands:   append([]string{}, u.ExcludedCommands...),
+			IncludedReadKeys:   append([]string{}, u.IncludedReadKeys...),
+			IncludedWriteKeys:  append([]string{}, u.IncludedWriteKeys...),
+			IncludedChannels:   append([]string{}, u.IncludedPubSubChannels...),
+			ExcludedChannels:   append([]string{}, u.ExcludedPubSubChannels...),
+		}
+		for _, p := range u.Passwords {
+			v.Passwords = append(v.Passwords, [2]string{p.PasswordType, p.PasswordValue})
+		}
+		out = append(out, v)
+	}
+	return out
+}
